@@ -116,6 +116,9 @@ func vApplySetupID(realID bool) *vApply {
 	}
 	rt.Assume(!blockchain.IsCoinBaseTx(tx))
 	a.outValue = uint64(rt.NondetU32()) + 1
+	if vPinned {
+		a.outValue = 600000000 + uint64(rt.NondetLen(0, 1))
+	}
 	tx.AddTxOut(wire.NewTxOut(int64(a.outValue), vP2WSH(a.shOut)))
 	a.rec = &TxRecord{MsgTx: *tx, TxLoc: &wire.TxLoc{TxStart: 100, TxLen: 200}}
 	if realID {
